@@ -178,6 +178,18 @@ def run(ctx, impl_only=False):
     pairs += FAM.alias_pairs(ctx, max(12, n // 12))
     pairs += FAM.rich_pairs(ctx, n // 4)
     pairs += FAM.hostile_pairs(ctx, n // 4)
+    import datetime as _dtm
+    # aware times of day at one instant written with different offsets are equal (==): no change to report; next to real changes
+    tz_ = lambda h: _dtm.timezone(_dtm.timedelta(hours=h))
+    for (x_, y_) in [(_dtm.time(8, tzinfo=tz_(0)), _dtm.time(9, tzinfo=tz_(1))), (_dtm.time(23, 30, tzinfo=tz_(-2)), _dtm.time(3, 30, tzinfo=tz_(2))), (_dtm.time(12, 0, 0, 5, tzinfo=tz_(5)), _dtm.time(7, 0, 0, 5, tzinfo=tz_(0))),
+                     (_dtm.time(8, tzinfo=tz_(0)), _dtm.time(8, 0, 1, tzinfo=tz_(0)))]:
+        for w_ in (lambda v: {'k': v, 'z': 1}, lambda v: [v, [1]], lambda v: {'a': {'b': [[0], v]}}, lambda v: (v, {'q': 1})):
+            pairs.append((w_(x_), w_(y_)))
+            pairs.append((w_(x_), w_(_dtm.time(1, 1, tzinfo=tz_(0)))))
+    # a key that comes back as an equal number of another type (1 / True / 1.0) is the same key: neither added nor removed
+    for (k1_, k2_) in [(1, True), (3, 3.0), (0, False), (8.0, 8), (True, 1.0), (-4.0, -4)]:
+        pairs += [({k1_: 'a', 'k': 0}, {k2_: 'a', 'k': 1}), ({k1_: [1, 2], 'x': 1}, {k2_: [1, 3], 'x': 1}), ({'m': {k1_: 1, 'o': 2}}, {'m': {k2_: 1, 'o': 3, 'p': 4}}), ([{k1_: 'v'}], [{k2_: 'w'}]),
+                  ({k1_: 1, 'a': 1, 'b': 2, 'c': 3}, {k2_: 1, 'a': 1, 'b': 2, 'd': 3})]
     # keys the default configuration skips ('__...'), with and without the closing underscores: on both sides, one side, equal or changed values
     DK = ['__all__', '__version__', '__ref', '__', 'a', '_p']
     pairs += FAM.hostile_pairs(ctx, max(10, n // 12), keys=DK, alias=False)
